@@ -11,4 +11,7 @@ import Simfile.Spec.Notes
 import Simfile.Spec.Group
 import Simfile.Model.Load
 import Simfile.Model.Msd
+import Simfile.Model.Source
+import Simfile.Model.Convert
+import Simfile.Model.Views
 import Simfile.Driver
